@@ -29,20 +29,24 @@ def work_init(init):
 BLANK_EXTS = [".txt", ".csv", ".tsv", ".md", ".json"]      # extractors that accept empty input: an empty member is a visible member with an (empty) result
 
 
-def build_members(seed: int, n: int, corrupt: int | None, with_noise: bool, prefix: str = "", dict_size: int | None = None, blanks: str | None = None):
+def build_members(seed: int, n: int, corrupt: int | None, with_noise: bool, prefix: str = "", dict_size: int | None = None, blanks: str | None = None,
+                  updates: str | None = None):
     """-> (members for archives.build, eligible list [(name, data)], corrupted member name or None)
 
     ``prefix``: every member name starts with it ("./" = what `tar -czf x.tgz .`, `zip -r x.zip .` and 7z with ./ arguments write; the
     "." directory itself comes first).  ``dict_size``: the 7z folder's LZMA / LZMA2 dictionary; members are added whose content repeats at a
     distance between 2/3 of it and all of it (within one member, and as a second copy of an earlier member), so that the packed stream
     really contains matches that need the whole declared dictionary.  ``blanks``: "empty" interleaves zero-length members of the plain-text
-    family (and directories next to them), "filled" is their control twin (the same members holding two bytes)."""
+    family (and directories next to them), "filled" is their control twin (the same members holding two bytes).  ``updates``: "same-name"
+    appends newer versions of one or two earlier members under the *same* member name, as the update / append modes of tar (-u, -r) and of
+    zipfile do (the archive then repeats a name; every occurrence is a member with bytes of its own); "renamed" is the control twin."""
     from vlib.gen import docs, mutate
     rng = random.Random(f"c10:{seed}")
     members, eligible = [], []
-    dirs = ["", "a/", "a/b/", "docs v2/", "ünï/", "報告/", "Q1最终/", "x\u0100y/", "a\u3000b/", "\U0001F600/",
+    dirs = ["", "a/", "a/b/", "docs v2/", "ünï/", "報告/", "Q1最终/", "x\u0100y/", "a\u3000b/", "\U0001F600/", "..data/", "v1...2/", "etc./",
             "long-" + "p" * 70 + "/" + "q" * 64 + "/"]      # > 100 bytes: GNU @LongLink record / ustar prefix field / pax path record in front of the member
     used = set()
+    fmts = {}
     corrupted = None
     if prefix == "./":
         members.append({"name": ".", "type": "dir"})
@@ -78,7 +82,8 @@ def build_members(seed: int, n: int, corrupt: int | None, with_noise: bool, pref
         ext = docs.BUILDERS[fmt][3]
         d = rng.choice(dirs)
         # duplicate basenames in different folders are intended; names mix Latin-1, U+xx00 code units (0x0100, 0x4E00, 0x3000), astral and combining characters
-        base = rng.choice(["report", "data", "notes", "Überblick", "same", "v1\u4e00", "Q1最终", "x\u0100", "é\u0300", "n\u3000m", "\U0001F4C4doc", "ß\u0200"])
+        base = rng.choice(["report", "data", "notes", "Überblick", "same", "v1\u4e00", "Q1最终", "x\u0100", "é\u0300", "n\u3000m", "\U0001F4C4doc", "ß\u0200",
+                           "draft..final", "range 1..10", "to be continued...", "a..b..c"])      # consecutive dots that are no parent reference
         name = f"{prefix}{d}{base}{i if rng.random() < 0.6 else ''}{ext}"
         if name in used:
             name = f"{prefix}{d}{base}_{i}{ext}"
@@ -99,6 +104,7 @@ def build_members(seed: int, n: int, corrupt: int | None, with_noise: bool, pref
                 twin = None
         members.append({"name": name, "data": data, "type": "file"})
         eligible.append((name, data))
+        fmts[name] = fmt
         if twin:
             members.append(twin)
         if dict_size and i == n - 1 and len(eligible) >= 2 and corrupt is None:
@@ -125,6 +131,16 @@ def build_members(seed: int, n: int, corrupt: int | None, with_noise: bool, pref
                 members.append({"name": f"{d}tool{i}.exe", "data": b"MZ\x90\x00" + b"qr00003z", "type": "file"})
             else:
                 members.append({"name": f"{d}inner{i}.zip", "data": archives.build("zip-stored", [{"name": "x.txt", "data": b"qr00004z nested\n"}]), "type": "file"})
+    if updates and fmts:
+        ru = random.Random(f"c10u:{seed}")
+        for j, name in enumerate(ru.sample(sorted(fmts), min(len(fmts), ru.randint(1, 2)))):
+            if name == corrupted:
+                continue
+            data = docs.build(fmts[name], seed * 100 + 50 + j)[0]            # another document of the same type
+            d, _, b = name.rpartition("/")
+            nm = name if updates == "same-name" else (d + "/" if d else "") + "updated-" + b
+            members.append({"name": nm, "data": data, "type": "file"})
+            eligible.append((nm, data))
     return members, eligible, corrupted
 
 
@@ -136,20 +152,24 @@ def work(case):
     from vlib.worker import arm_cpu
     arm_cpu(120)
     blanks = "empty" if case.get("blanks") else None
-    out = _run(case, case.get("prefix", ""), case.get("dict"), blanks)
+    upd = "same-name" if case.get("updates") else None
+    out = _run(case, case.get("prefix", ""), case.get("dict"), blanks, updates=upd)
+    if out["problems"] and upd:
+        # control twin for the repeated names alone: the newer versions under names of their own
+        out["update_twin_problems"] = sorted({p["sym"] for p in _run(case, case.get("prefix", ""), case.get("dict"), blanks, updates="renamed")["problems"]})
     if out["problems"] and blanks:
         # control twin for the empty members alone: the same archive with two bytes in each of them
-        out["blank_twin_problems"] = sorted({p["sym"] for p in _run(case, case.get("prefix", ""), case.get("dict"), "filled")["problems"]})
+        out["blank_twin_problems"] = sorted({p["sym"] for p in _run(case, case.get("prefix", ""), case.get("dict"), "filled", updates=upd)["problems"]})
     if out["problems"] and (case.get("prefix") or case.get("dict")) and out.get("blank_twin_problems", True):
         # control twin: the same members under plain names in a folder with the writer's default dictionary
-        out["twin_problems"] = sorted({p["sym"] for p in _run(case, "", case.get("dict"), "filled" if blanks else None, twin=True)["problems"]})
+        out["twin_problems"] = sorted({p["sym"] for p in _run(case, "", case.get("dict"), "filled" if blanks else None, twin=True, updates="renamed" if upd else None)["problems"]})
     return out
 
 
-def _run(case, prefix, dict_size, blanks=None, twin=False):
+def _run(case, prefix, dict_size, blanks=None, twin=False, updates=None):
     from vlib import obs
     from sharepoint2text.parsing import router
-    members, eligible, corrupted = build_members(case["seed"], case["n"], case.get("corrupt"), case.get("noise", True), prefix, dict_size, blanks)
+    members, eligible, corrupted = build_members(case["seed"], case["n"], case.get("corrupt"), case.get("noise", True), prefix, dict_size, blanks, updates)
     layout = case["layout"]
     data = archives.build(layout, members, dict_size=None if twin else dict_size)
     apath = "dir/arch" + archives.ext_of(layout)
@@ -246,6 +266,8 @@ def gen_cases(run):
             corrupt = rng.randrange(n) if (n >= 2 and r % 2 == 1) else None
             cid += 1
             case = {"id": cid, "layout": layout, "seed": run.seed * 10000 + cid, "n": n, "corrupt": corrupt, "noise": r % 4 != 0}
+            if r % 5 == 3 and not layout.startswith("7z") and n:
+                case["updates"] = True          # newer versions of earlier members appended under the same names (tar -u / -r, zipfile append)
             if r % 4 == 1:
                 case["blanks"] = True           # zero-length members of the plain-text family, next to directories
             if r % 6 == 2:
@@ -291,6 +313,10 @@ def main(run):
             feat = "empty-member"                       # the twin whose empty members hold two bytes is clean
             if case["layout"].startswith("7z"):
                 lc = "7z"                               # one mechanism for every coder / folder layout
+        if case.get("updates"):
+            run.count(("zip" if case["layout"].startswith("zip") else "tar") + "_archives_with_repeated_member_names")
+        if feat == "clean" and ob["problems"] and case.get("updates") and ob.get("update_twin_problems") == []:
+            feat = "repeated-member-names"              # the twin with the newer versions under names of their own is clean
         twin_clean = not ob.get("twin_problems")         # the risky feature is only named when the control twin is judged clean
         if feat == "clean" and ob["problems"] and twin_clean and (dclass or case.get("prefix")):
             feat = "+".join(["clean"] + ([f"{dclass}-dictionary-far-matches"] if dclass else []) + (["dot-slash-prefixed-names"] if case.get("prefix") else []))
@@ -307,7 +333,8 @@ def main(run):
     for fmt in ("pax", "gnu", "ustar"):     # every TAR header format must have been read back uncompressed (detection by the tar magic) and compressed
         run.require(f"tar_{fmt}_uncompressed_archives", sum(n for l, n in per_layout.items() if archives.family(l) == "tar" and archives.tar_format(l) == fmt), 5)
         run.require(f"tar_{fmt}_compressed_archives", sum(n for l, n in per_layout.items() if archives.family(l).startswith("tar.") and archives.tar_format(l) == fmt), 15)
-    for k, lo in (("7z_archives_with_empty_text_members", run.n(60, 600)), ("zip_stored_archives_with_empty_text_members", run.n(5, 50)), ("other_archives_with_empty_text_members", run.n(25, 250)),
+    for k, lo in (("tar_archives_with_repeated_member_names", run.n(25, 250)), ("zip_archives_with_repeated_member_names", run.n(6, 60)),
+                  ("7z_archives_with_empty_text_members", run.n(60, 600)), ("zip_stored_archives_with_empty_text_members", run.n(5, 50)), ("other_archives_with_empty_text_members", run.n(25, 250)),
                   ("7z_archives_with_3x2^n_dictionary_and_far_matches", run.n(40, 400)), ("7z_archives_with_2^n_dictionary_and_far_matches", run.n(40, 400)),
                   ("archives_with_dot-slash_prefixed_names", run.n(60, 600))):
         run.require(k, run.counters.get(k, 0), lo)
